@@ -8,6 +8,22 @@ from ..core.report import AnalysisError
 from . import pyxfront
 
 
+class _CastPrecedence(ast.NodeTransformer):
+    """The front-end writes the Cython cast `<T> e` as `__cast__('T') * e` and address-of `&e` as `__addr__ * e`.  A cast binds tighter than any binary operator, so
+    `a / <double> n` must read a / (cast * n), not (a / cast) * n as Python's left-associative parse of the rewritten text gives: re-associate."""
+    def visit_BinOp(self, node):
+        self.generic_visit(node)
+        l = node.left
+        if isinstance(node.op, ast.Mult) and isinstance(l, ast.BinOp) and isinstance(l.op, (ast.Div, ast.Mult, ast.FloorDiv, ast.Mod)) and _is_cast_marker(l.right):
+            inner = ast.copy_location(ast.BinOp(left=l.right, op=ast.Mult(), right=node.right), node)
+            return ast.copy_location(ast.BinOp(left=l.left, op=l.op, right=inner), node)
+        return node
+
+
+def _is_cast_marker(n):
+    return (isinstance(n, ast.Call) and isinstance(n.func, ast.Name) and n.func.id == '__cast__') or (isinstance(n, ast.Name) and n.id == '__addr__')
+
+
 class Mod:
     def __init__(self, repo, name, path, is_pkg):
         self.repo = repo; self.name = name; self.path = path; self.is_pkg = is_pkg
@@ -19,7 +35,8 @@ class Mod:
         if self.is_pyx:
             try:
                 py, self.facts = pyxfront.convert(self.src)
-                self.tree = ast.parse(py)
+                self.tree = _CastPrecedence().visit(ast.parse(py))
+                ast.fix_missing_locations(self.tree)
                 self.parsed_lines = py.split('\n')
             except SyntaxError as e:
                 raise AnalysisError(f'{path}: Cython front-end could not parse line {e.lineno}: {e.msg}')
